@@ -244,6 +244,7 @@ def deviations(desc, d=1):
 
 
 def _esc_attr(v, q, numeric):
+    v = str(v)
     out = []
     for ch in v:
         if numeric and not (ch.isalnum() and ord(ch) < 128):
@@ -264,6 +265,7 @@ def _esc_attr(v, q, numeric):
 
 
 def _esc_text(v, numeric, cdata):
+    v = str(v)
     if cdata and "]]>" not in v:
         return "<![CDATA[" + v + "]]>"
     out = []
@@ -316,7 +318,7 @@ def serialise(desc, sp=None):
 
     def text_s(t):
         # character references are not interpreted inside CDATA: no CDATA for text that will be asciified
-        s = _esc_text(t, sp.numeric, sp.cdata and (not sp.ascii or all(ord(c) < 127 for c in t)))
+        s = _esc_text(t, sp.numeric, sp.cdata and (not sp.ascii or all(ord(c) < 127 for c in str(t))))
         if sp.pad:
             s = "\n    " + s + "\n  "
         return s
